@@ -1059,6 +1059,11 @@ func handleZRANGE(params internal.HandlerFuncParams) ([]byte, error) {
 	if slices.ContainsFunc(params.Command[4:], func(s string) bool {
 		return strings.EqualFold(s, "bylex")
 	}) {
+		if slices.ContainsFunc(params.Command[4:], func(s string) bool {
+			return strings.EqualFold(s, "byscore")
+		}) {
+			return nil, errors.New("BYSCORE and BYLEX are not compatible")
+		}
 		policy = "bylex"
 	} else {
 		// policy is "byscore" make sure start and stop are valid float values
